@@ -30,7 +30,7 @@ def concurrent_reconfig(ctx, what, levels=True, plain=True):
             iv = vc.parse(il)
         except Exception:
             iv = b"unparsable:" + il[:100].encode()
-        d = c15.compare(c, iv, mv)
+        d = vc.safe_compare(c15, c, iv, mv)
         if d:
             res.append(("%s (C15 stress scenario): %s" % (what, d),
                         {"case_line": ln, "run_with": "./check C15 --replay <this file>", "impl": vc.jsonable(iv)}))
@@ -65,7 +65,7 @@ def global_facade(ctx, what, n=36):
             iv = vc.parse(il)
         except Exception:
             iv = b"unparsable:" + il[:100].encode()
-        d = c02.compare(c, iv, mv)
+        d = vc.safe_compare(c02, c, iv, mv)
         if d:
             res.append(("%s (C02 history through the global logger): %s" % (what, d),
                         {"case_line": ln, "run_with": "./check C02 --replay <this file>"}))
@@ -111,7 +111,7 @@ def borrow(ctx, other, what, select=None, n=30, seed_salt=7):
             iv = vc.parse(il)
         except Exception:
             iv = b"unparsable:" + il[:100].encode()
-        d = mod.compare(c, iv, mv) if hasattr(mod, "compare") else (None if iv == mv else "impl != model")
+        d = vc.safe_compare(mod, c, iv, mv)
         if d is None:
             continue
         kf = mod.known_finding(c, iv, mv) if hasattr(mod, "known_finding") else None
